@@ -127,6 +127,28 @@ func psReachValV(fn *ssa.Function, starts []*ssa.BasicBlock, cut func(from *ssa.
 			}
 		}
 	}
+	// integer phis (tracked while their incoming value is a constant) and channel phis (tracked by chosen edge)
+	intIdx := map[*ssa.Phi]int{}
+	chIdx := map[*ssa.Phi]int{}
+	for _, b := range fn.Blocks {
+		for _, in := range b.Instrs {
+			p, ok := in.(*ssa.Phi)
+			if !ok {
+				continue
+			}
+			switch t := p.Type().Underlying().(type) {
+			case *types.Basic:
+				if t.Info()&types.IsInteger != 0 {
+					intIdx[p] = len(intIdx)
+				}
+			case *types.Chan:
+				chIdx[p] = len(chIdx)
+			}
+		}
+	}
+	curI := map[int]int64{}
+	curC := map[int]int{}
+	_ = curC
 	type env map[int]bool
 	enc := func(e env) string {
 		var ks []int
@@ -145,6 +167,33 @@ func psReachValV(fn *ssa.Function, starts []*ssa.BasicBlock, cut func(from *ssa.
 			sb.WriteString(string(rune('0' + k/26)))
 		}
 		return sb.String()
+	}
+	var evalInt func(v ssa.Value, d int) (int64, bool)
+	evalInt = func(v ssa.Value, d int) (int64, bool) {
+		if d > 4 {
+			return 0, false
+		}
+		switch x := v.(type) {
+		case *ssa.Const:
+			if x.Value != nil && x.Value.Kind() == constant.Int {
+				return x.Int64(), true
+			}
+		case *ssa.Phi:
+			if i, ok := intIdx[x]; ok {
+				r, known := curI[i]
+				return r, known
+			}
+		case *ssa.Convert:
+			return evalInt(x.X, d+1)
+		case *ssa.ChangeType:
+			return evalInt(x.X, d+1)
+		}
+		if val != nil {
+			if r, ok := val[desc(v)]; ok {
+				return r, true
+			}
+		}
+		return 0, false
 	}
 	var evalV func(v ssa.Value, e env) (res, known bool)
 	evalV = func(v ssa.Value, e env) (res, known bool) {
@@ -168,6 +217,25 @@ func psReachValV(fn *ssa.Function, starts []*ssa.BasicBlock, cut func(from *ssa.
 				if tf, _ := condFacts(x); len(tf) == 1 {
 					if known, truth := evalFact(tf[0], val); known {
 						return truth, true
+					}
+				}
+				// both operands evaluate to integers (constants, valued atoms, constant-carrying phis)
+				if a, okA := evalInt(x.X, 0); okA {
+					if b, okB := evalInt(x.Y, 0); okB {
+						switch x.Op {
+						case token.EQL:
+							return a == b, true
+						case token.NEQ:
+							return a != b, true
+						case token.LSS:
+							return a < b, true
+						case token.LEQ:
+							return a <= b, true
+						case token.GTR:
+							return a > b, true
+						case token.GEQ:
+							return a >= b, true
+						}
 					}
 				}
 				// nil test of a same-package helper's result, the helper evaluated under the valuation
@@ -220,8 +288,15 @@ func psReachValV(fn *ssa.Function, starts []*ssa.BasicBlock, cut func(from *ssa.
 					hval["p"+strconv.Itoa(i)] = k.Int64()
 					continue
 				}
-				if v, ok := val[desc(a)]; ok {
+				if v, ok := evalInt(a, 0); ok {
 					hval["p"+strconv.Itoa(i)] = v
+				}
+				// atoms that are field paths of an argument (p.config.Role with p passed as the receiver)
+				da := desc(a)
+				for k, v := range val {
+					if strings.HasPrefix(k, da+".") {
+						hval["p"+strconv.Itoa(i)+k[len(da):]] = v
+					}
 				}
 			}
 			if len(hval) == 0 {
@@ -235,25 +310,60 @@ func psReachValV(fn *ssa.Function, starts []*ssa.BasicBlock, cut func(from *ssa.
 	lastPsEdges = map[[2]*ssa.BasicBlock]bool{}
 	seen := map[psState]bool{}
 	type item struct {
-		b *ssa.BasicBlock
-		e env
+		b  *ssa.BasicBlock
+		e  env
+		ei map[int]int64
+		ec map[int]int
+	}
+	encAll := func(it item) string {
+		s := enc(it.e)
+		if len(it.ei) > 0 || len(it.ec) > 0 {
+			var ks []int
+			for k := range it.ei {
+				ks = append(ks, k)
+			}
+			sort.Ints(ks)
+			for _, k := range ks {
+				s += "|i" + strconv.Itoa(k) + "=" + strconv.FormatInt(it.ei[k], 10)
+			}
+			ks = ks[:0]
+			for k := range it.ec {
+				ks = append(ks, k)
+			}
+			sort.Ints(ks)
+			for _, k := range ks {
+				s += "|c" + strconv.Itoa(k) + "=" + strconv.Itoa(it.ec[k])
+			}
+		}
+		return s
 	}
 	var q []item
 	for _, s := range starts {
-		q = append(q, item{s, env{}})
+		q = append(q, item{s, env{}, map[int]int64{}, map[int]int{}})
 	}
 	for len(q) > 0 {
 		it := q[0]
 		q = q[1:]
-		st := psState{it.b, enc(it.e)}
+		st := psState{it.b, encAll(it)}
 		if seen[st] {
 			continue
 		}
 		seen[st] = true
 		reach[it.b] = true
+		curI, curC = it.ei, it.ec
 		if visit != nil {
 			e := it.e
+			ec := it.ec
+			psChanChoice = func(p *ssa.Phi) (ssa.Value, bool) {
+				if i, ok := chIdx[p]; ok {
+					if k, known := ec[i]; known && k < len(p.Edges) {
+						return p.Edges[k], true
+					}
+				}
+				return nil, false
+			}
 			visit(it.b, func(v ssa.Value) (bool, bool) { return evalV(v, e) })
+			psChanChoice = nil
 		}
 		// successors
 		var iff *ssa.If
@@ -302,8 +412,35 @@ func psReachValV(fn *ssa.Function, starts []*ssa.BasicBlock, cut func(from *ssa.
 					delete(ne, idx)
 				}
 			}
+			nei := map[int]int64{}
+			for k, v := range it.ei {
+				nei[k] = v
+			}
+			nec := map[int]int{}
+			for k, v := range it.ec {
+				nec[k] = v
+			}
+			for _, in := range s.Instrs {
+				p, ok := in.(*ssa.Phi)
+				if !ok {
+					break
+				}
+				if predIdx < 0 {
+					continue
+				}
+				if idx, tracked := intIdx[p]; tracked {
+					if v, known := evalInt(p.Edges[predIdx], 0); known {
+						nei[idx] = v
+					} else {
+						delete(nei, idx)
+					}
+				}
+				if idx, tracked := chIdx[p]; tracked {
+					nec[idx] = predIdx
+				}
+			}
 			lastPsEdges[[2]*ssa.BasicBlock{it.b, s}] = true
-			q = append(q, item{s, ne})
+			q = append(q, item{s, ne, nei, nec})
 		}
 	}
 	return reach
@@ -323,6 +460,9 @@ func evalVHelper(v ssa.Value, e map[int]bool, phiIdx map[*ssa.Phi]int) (bool, bo
 	}
 	return false, false
 }
+
+// psChanChoice: during a visit, the incoming value a channel-typed phi took on the path being explored.
+var psChanChoice func(*ssa.Phi) (ssa.Value, bool)
 
 // lastPsEdges: CFG edges traversed by the most recent psReachVal call (feasible edges under its valuation).
 var lastPsEdges map[[2]*ssa.BasicBlock]bool
